@@ -1923,6 +1923,7 @@ func (vm *VM) execAsync() error {
 	for k, v := range vm.builtins {
 		builtinsCopy[k] = v
 	}
+	maxSteps := vm.maxSteps
 
 	go func() {
 		defer close(future.Done)
@@ -1938,6 +1939,8 @@ func (vm *VM) execAsync() error {
 		asyncVM.locals = localsCopy
 		asyncVM.globals = globalsCopy
 		asyncVM.builtins = builtinsCopy
+		// The step limit bounds the whole execution, async bodies included.
+		asyncVM.maxSteps = maxSteps
 
 		// Execute the async body using raw instructions (no GLYP header)
 		result, execErr := asyncVM.executeRaw(asyncBody)
